@@ -83,9 +83,42 @@ def close(a, b):
     return abs(a - b) <= 1e-10 * max(abs(a), abs(b))
 
 
+def _operand_end(s, i):
+    """index just after the operand that starts at s[i] (sign, number, name, call or parenthesised group)"""
+    n = len(s)
+    if i < n and s[i] in "+-":
+        i += 1
+    if i < n and s[i] == "(":
+        depth = 0
+        while i < n:
+            depth += s[i] == "("
+            depth -= s[i] == ")"
+            i += 1
+            if depth == 0:
+                return i
+        return n
+    m = re.match(r"\d[\d.]*(?:[eEdD][+-]?\d+)?|\.\d+", s[i:])
+    if m:
+        return i + m.end()
+    m = re.match(r"[A-Za-z_]\w*", s[i:])
+    if m:
+        j = i + m.end()
+        return _operand_end(s, j) if j < n and s[j] == "(" else j
+    return i
+
+
+def has_chained_pow(s):
+    """some ** whose right operand is directly followed by another ** (a**b**c, a**(b)**c, a**f(b)**c)"""
+    for m in re.finditer(r"\*\*", s):
+        j = _operand_end(s, m.end())
+        if s[j:j + 2] == "**":
+            return True
+    return False
+
+
 def classify(rate):
     s = re.sub(r"\s+", "", rate)
-    if re.search(r"\*\*[^*]+?\*\*", s) and not re.search(r"\*\*\([^()]*\)\*\*", s) is None or re.search(r"\*\*[A-Za-z0-9_.]+\*\*", s):
+    if has_chained_pow(s):
         return KNOWN["pow"]
     if re.search(r"(^|[(*/,+-])-\d[\d.]*(?:[eEdD][+-]?\d+)?\*\*", s):
         return KNOWN["signed"]
@@ -227,6 +260,10 @@ def run(res, info):
         check_rate(res, model, gen_expr(rng, rng.randint(1, 4)), ("gen", i), rng)
     for i in range(n // 4):
         check_rate(res, model, gen_expr(rng, rng.randint(1, 4), allow_findings=True), ("gen-findings", i), rng)
+    # an identifier followed by a signed number next to a power (fixed: b5a9883; the grammar read 'Te+2.5' as one identifier)
+    for s in ["Te+2.5**2*T32-1.0", "user_crate+2.5d-9**2.0e0 * n(idx_E)-(user_Av-invT)", "invT/invTe*user_Av*Tgas-10.526d2**(1.0d2) * exp(-2.0*lnTe)",
+              "Tgas**Te+2.5", "Tgas-2.0**3-Te", "lnTe-1.5e2**2*Te-1.0"]:
+        check_rate(res, model, s, ("fixed", s), rng)
     for s in ["Tgas/(Te/T32)", "1.d-9/(Tgas/3.d2)", "Tgas-(Te-T32)", "Tgas/(exp(Te)/T32)", "sqrt(Tgas/(Te/T32))", "Tgas/(n(idx_H)/Te)"]:
         check_rate(res, model, s, ("fixed", s), rng)
     for s in ["a**b**c", "2.0**3**2", "Tgas**2**0.5", "-1.0e0**2", "2.0*-1.5**2", "n(idx_H2)", "n(idx_Hp)*n(idx_E)", "n(idx_HEpp)", "n(idx_H)*n(idx_E)"]:
